@@ -59,6 +59,20 @@ type request struct {
 	// kind "conc": the requests to run first one after the other and then from several goroutines on
 	// the same parsed objects; kind "flush": re-verify every retained tree
 	Batch []*request `json:"batch,omitempty"`
+	// Light: decode, count the nodes and measure only - none of the per-tree oracles (used for the
+	// one large witness of the known finding C11/alias-bomb-superlinear, whose tree has 10^6 nodes)
+	Light bool `json:"light,omitempty"`
+}
+
+func countNodes(c *abi.ComponentValue) int {
+	if c == nil {
+		return 0
+	}
+	n := 1
+	for _, ch := range c.Children {
+		n += countNodes(ch)
+	}
+	return n
 }
 
 type response struct {
@@ -467,6 +481,10 @@ func handle(rq *request) *response {
 	}
 	if matched != nil {
 		rs.Matched = matched.Name
+	}
+	if rq.Light {
+		rs.Nodes = countNodes(tree)
+		return rs
 	}
 	var ser []byte
 	var desc strings.Builder
@@ -945,6 +963,56 @@ func (d *driver) run(rq *request, t *T, mut string) *response {
 		}
 	}
 	return rs
+}
+
+// aliasBombWitness runs the witness of the known finding C11/alias-bomb-superlinear on the
+// implementation (referee issue I2): uint256[][][] where every offset of a level points at ONE array of
+// the next level, counts k/k/k.  The decoded tree has k^3 leaves for about 96*k bytes of data: the
+// memory used is a function of the data length and the nesting only - what C11_alloc_bound states,
+// the bound being a polynomial of degree 3 here (C11_bound_polynomial) - but not "never exhausts
+// memory" in any absolute sense (k = 683 fits into 64 KiB: 3e8 nodes).  The oracle is a LINEAR budget,
+// 1024 bytes allocated per byte of data; it is applied to this input only (light request: decode,
+// count, measure).  A repair that caps the decoded size turns the outcome into an error or brings the
+// allocation under the budget, and the finding disappears from the run.
+func (d *driver) aliasBombWitness() {
+	const k = 100
+	var b []byte
+	b = append(b, wordInt(32)...)
+	for level := 0; level < 2; level++ {
+		b = append(b, wordInt(k)...)
+		for i := 0; i < k; i++ {
+			b = append(b, wordInt(32*k)...) // every offset -> the array right after this offsets area
+		}
+	}
+	b = append(b, wordInt(k)...)
+	for i := 0; i < k; i++ {
+		b = append(b, wordInt(i)...)
+	}
+	u256 := el(kUint, 256, 0)
+	t := wrap1(dyn(dyn(dyn(u256))))
+	rq := &request{Kind: "dec", Params: paramsJSON(t), Data: hex.EncodeToString(b), Light: true}
+	const key = "C11/alias-bomb-superlinear"
+	how := map[string]interface{}{"witness": fmt.Sprintf("(uint256[][][]): word 32, then twice [count %d, %d offset words %d], then count %d and %d value words; %d bytes", k, k, 32*k, k, k, len(b))}
+	d.nImpl++
+	rs, died := d.wk.do(rq, 120*time.Second)
+	if died != "" {
+		d.st.Hit("witness:alias-bomb-3:died")
+		d.fail("decoding the alias-bomb witness did not return: "+died, key, rq, how)
+		d.wk = startWorker()
+		return
+	}
+	d.st.Hit(fmt.Sprintf("witness:alias-bomb-3:class:%d", rs.Cls))
+	if rs.Cls == 2 {
+		d.fail("the implementation panicked: "+rs.Panic, "", rq, how)
+		return
+	}
+	if lin := uint64(1024 * (len(b) + 1)); rs.Alloc > lin {
+		d.fail(fmt.Sprintf("decoding %d bytes as (uint256[][][]) allocated %d bytes for %d nodes, above the linear budget of 1024 bytes per byte of data (%d): memory grows with the cube of the data length when offsets alias", len(b), rs.Alloc, rs.Nodes, lin), key, rq, how)
+	}
+	if d.st.Extra == nil {
+		d.st.Extra = map[string]interface{}{}
+	}
+	d.st.Extra["alias_bomb_witness"] = fmt.Sprintf("%d bytes -> %d nodes, %d bytes allocated", len(b), rs.Nodes, rs.Alloc)
 }
 
 // stateOracles: the implementation-only oracles about state kept across calls and shared memory.
